@@ -184,6 +184,31 @@ def impl_job(kind, arg, form="nd"):
         if idx2 != idx or idx_again != idx:
             problems.append("cartesian_nearest_index depends on the argument form %s / repeated call: %d, %d vs %d" % (form, idx2, idx_again, idx))
         return {"idx": idx, "problems": problems[:5]}
+    if kind == "nearest_typed":
+        # query and grids in explicit Python/NumPy types; batch = several points as a 2-d array / list of lists
+        nodes, nkinds, pts, xkind, batch, order = arg
+        def typed(v, kd):
+            if kd in ("pylist", "pytuple"):
+                conv = (lambda t: int(t) if float(t).is_integer() and kd_int else float(t))
+                return [conv(t) for t in v] if kd == "pylist" else tuple(conv(t) for t in v)
+            return np.array(v, dtype={"int32": np.int32, "int64": np.int64, "float64": np.float64, "float32": np.float32}[kd])
+        gs = []
+        for g, kd in zip(nodes, nkinds):
+            kd_int = kd.endswith("_int")
+            gs.append(typed(g, kd.replace("_int", "")))
+        kd_int = xkind.endswith("_int")
+        xk = xkind.replace("_int", "")
+        if batch:
+            X = [list(typed(p, "pylist")) for p in pts] if xk in ("pylist", "pytuple") else typed(pts, xk)
+            if xk == "pytuple":
+                X = tuple(tuple(r) for r in X)
+            out = watch("cartesian_nearest_index", lambda xx, *ns: cartesian_nearest_index(xx, tuple(ns), order=order), [(X, None)] + [(g, None) for g in gs])
+            return {"idx": [int(v) for v in out], "problems": problems[:5]}
+        res = []
+        for p in pts:
+            res.append(int(watch("cartesian_nearest_index", lambda xx, *ns: cartesian_nearest_index(xx, tuple(ns), order=order),
+                                 [(typed(p, xk), None)] + [(g, None) for g in gs])))
+        return {"idx": res, "problems": problems[:5]}
     raise ValueError(kind)
 
 
@@ -334,6 +359,35 @@ def run(ctx):
         for order in "CF":
             near_in.append((nodes, x, order))
     jobs += [("nearest", [nodes, x, order]) for nodes, x, order in near_in]
+    # typed queries: integer-typed points (Python ints, int32/int64 arrays; single point and 2-d batch) against float
+    # grids with non-integer (dyadic: float arithmetic exact) values, float points against integer-typed grids, mixed grids
+    import random as _random
+    rng2 = _random.Random(ctx.seed * 7919 + 16)
+    typed_in = []
+    for t in range(240 if thorough else 90):
+        d = rng2.randrange(1, 4)
+        scen = t % 3                       # 0: int query / float grids, 1: float query / int grids, 2: mixed grids
+        nodes, nkinds = [], []
+        for i in range(d):
+            npts = rng2.randrange(1, 6)
+            as_int = (scen == 1) or (scen == 2 and i % 2 == 0)
+            if as_int:
+                nodes.append(sorted(rng2.sample(range(-9, 10), npts)))
+                nkinds.append(rng2.choice(["int64", "int32", "pylist_int"]))
+            else:
+                g = sorted(rng2.sample([q for q in range(-40, 41) if q % 8 != 0], npts))    # eighths, none an integer
+                nodes.append([q / 8.0 for q in g])
+                nkinds.append(rng2.choice(["float64", "float64", "pylist", "float32"]))
+        if scen == 1:
+            xkind = rng2.choice(["float64", "pylist", "pytuple", "float32"])
+            pts = [[rng2.randrange(-80, 81) / 8.0 for _ in range(d)] for _ in range(3)]
+            pts.append([(g[0] + g[-1]) / 2.0 for g in nodes])
+        else:
+            xkind = rng2.choice(["pytuple_int", "pylist_int", "int32", "int64"])
+            pts = [[rng2.randrange(-6, 7) for _ in range(d)] for _ in range(3)]
+            pts.append([int(round(g[len(g) // 2])) for g in nodes])
+        typed_in.append((nodes, nkinds, pts, xkind, bool(t % 2), rng2.choice("CF")))
+    jobs += [("nearest_typed", list(t)) for t in typed_in]
     jobs = [(kind, arg, FORMS_ALL[j % len(FORMS_ALL)]) for j, (kind, arg) in enumerate(jobs)]   # rotating argument form
     ctx.jobdir = tempfile.mkdtemp(prefix="c16_", dir=ctx.work)
     started = start_jobs(ctx, jobs)          # runs while the proofs are being checked
@@ -567,6 +621,38 @@ def run(ctx):
         nodes, x, order = meta[i]
         ctx.mismatch("C16.Model.cartesian_nearest_index vs _gridtools.cartesian_nearest_index", {"nodes": nodes, "x": x, "order": order})
 
+    # ---- typed queries / typed grids: same exact oracle, same model (values are dyadic, so Q = binary64 here)
+    cases, meta = [], []
+    for (nodes, nkinds, pts, xkind, batch, order), res in zip(typed_in, by_kind["nearest_typed"]):
+        base = {"nodes": nodes, "node_types": nkinds, "x": pts, "x_type": xkind, "batch": batch, "order": order}
+        if bad_result(ctx, "nearest_index", base, res):
+            continue
+        ctx.count("nearest_typed:x=%s%s" % (xkind, "/batch" if batch else ""))
+        grid = (list(itertools.product(*nodes)) if order == "C" else [t[::-1] for t in itertools.product(*nodes[::-1])])
+        if len(res[1]["idx"]) != len(pts):
+            ctx.fail("nearest_index_range", "one index per query point expected", base, res[1]["idx"], None)
+            continue
+        for x, idx in zip(pts, res[1]["idx"]):
+            inp = dict(base, x=x)
+            ctx.case(("nearest_typed", tuple(map(tuple, nodes)), tuple(nkinds), tuple(x), xkind, batch, order), nontrivial=(max(len(g) for g in nodes) >= 2))
+            cases.append(tup(blit(order == "F"), qlist2([[frac(v) for v in g] for g in nodes]), qlist([frac(v) for v in x]), zlit(idx)))
+            meta.append(inp)
+            if not (0 <= idx < len(grid)):
+                ctx.fail("nearest_index_range", "index outside the grid", inp, idx, None)
+                continue
+            dist = [sum((frac(p) - frac(q)) ** 2 for p, q in zip(row, x)) for row in grid]
+            if dist[idx] != min(dist):
+                ctx.fail("nearest_index", "returned grid point is not at minimum distance (typed query/grid)", inp, idx, dist.index(min(dist)))
+                continue
+            low = tuple(min(range(len(g)), key=lambda j: (abs(frac(g[j]) - frac(xi)), j)) for g, xi in zip(nodes, x))
+            want = tuple(g[j] for g, j in zip(nodes, low))
+            if tuple(grid[idx]) != want:
+                ctx.fail("nearest_index_tie", "equidistant nodes: not resolved to the lower neighbour", inp, idx, grid.index(want))
+    bad = ctx.coq_check("cartesian_nearest_index_typed", IMPORTS, "bool * list (list Q) * list Q * Z",
+                        "fun c => let '(f, nodes, x, idx) := c in Z.eqb (cartesian_nearest_index f nodes x) idx", cases, chunk=150)
+    for i in bad:
+        ctx.mismatch("C16.Model.cartesian_nearest_index vs _gridtools.cartesian_nearest_index (typed query/grid)", meta[i])
+
 
 def replay(data):
     """Re-run the first recorded failing input against the current implementation and print what the oracle compares."""
@@ -593,6 +679,9 @@ def replay(data):
         elif "indices" in inp:
             r = impl_job("cindex", [inp["indices"], inp["nums"]])
             print("_cartesian_index =", r["idx"], "ravel_multi_index =", int(np.ravel_multi_index(tuple(inp["indices"]), tuple(inp["nums"]))))
+        elif "x_type" in inp:
+            r = impl_job("nearest_typed", [inp["nodes"], inp["node_types"], [inp["x"]], inp["x_type"], inp["batch"], inp["order"]])
+            print("cartesian_nearest_index (x as %s, grids as %s) =" % (inp["x_type"], inp["node_types"]), r["idx"], " expected:", first.get("expected"))
         elif "x" in inp and "nodes" in inp:
             r = impl_job("nearest", [inp["nodes"], inp["x"], inp["order"]])
             print("cartesian_nearest_index =", r["idx"], " expected:", first.get("expected"))
